@@ -7,4 +7,4 @@ From LLB Require Import BSys.Failure.
    (ocaml/helpers.ml) mention them. *)
 Extraction "extracted/Model_failure.ml" result_for_output produced_node_value input_effect provide_all
   command_outcome run_command cmd_valid node_valid target_reports build_ok run_chain regular_hop launders
-  uses_inputs is_failing_cmd is_successful N.of_nat N.to_nat.
+  uses_inputs update_shortcut run_command_prior is_failing_cmd is_successful N.of_nat N.to_nat.
